@@ -38,9 +38,10 @@ XR_OPS = [
     "isel_kw", "isel_list", "isel_slice", "isel_posdict", "isel_indexers_kw", "getitem", "sel",
     "mean", "sum", "max", "min", "std", "median", "count", "argmax", "cumsum", "cumprod", "rolling_mean", "rolling_sum",
     "transpose", "T", "rename", "rename_dim", "assign_coords", "expand_dims", "squeeze1", "shift", "diff",
-    "concat_old", "concat_new", "copy_shallow", "copy_deep", "isel_lead_and_grid",
+    "concat_old", "concat_new", "copy_shallow", "copy_deep", "deepcopy", "isel_lead_and_grid",
+    "sum_grid", "mean_grid", "max_grid",
 ]
-UX_OPS = ["ux.isel_face", "ux.isel_node", "ux.integrate", "ux.gradient", "ux.difference", "ux.topological_mean", "ux.remap_nn", "ux.get_dual"]
+UX_OPS = ["ux.isel_face", "ux.isel_node", "ux.integrate", "ux.gradient", "ux.difference", "ux.topological_mean", "ux.remap_nn", "ux.get_dual", "ux.isel_two_dims"]
 PLAIN_ARITH = {"add", "sub", "mul", "rsub", "neg", "abs", "pow2", "add_self", "mul_np", "gt", "eq"}
 # operations that xarray routes through apply_ufunc / rolling / isnull: the family of the known finding
 APPLY_UFUNC_FAMILY = {"np.sin", "np.tanh", "np.add", "np.maximum", "np.abs", "where1", "where2", "clip", "fillna", "astype32", "astype64", "astypeint", "isnull", "rolling_mean", "rolling_sum"}
@@ -137,6 +138,18 @@ def run_case(case, ctx):
                 if res.sizes[dm] != _n_of(rg, dm):
                     bad("grid_dims_consistent", site, "size-mismatch", f"step {step}: result has {dm}={res.sizes[dm]} but its grid has {_n_of(rg, dm)} (dims {res.dims})")
                     return False
+        return True
+
+    def probe_copy(cur, op, step):
+        """whatever the array has become, a deep copy of it owns an equal grid of its own"""
+        if cur.uxgrid is None:
+            return True
+        ctx.ev("deep_copy_of_result")
+        cp = cur.copy(deep=True)
+        if not isinstance(cp, ux.UxDataArray) or cp.uxgrid is None or cp.uxgrid is cur.uxgrid or not (cp.uxgrid == cur.uxgrid):
+            shares = getattr(cp, "uxgrid", None) is cur.uxgrid
+            bad("same_grid", "probe:copy_deep-after:" + op, "deep-copy-shares-grid" if shares else "deep-copy-grid-wrong", f"step {step}: a deep copy of the result of {op} (dims {cur.dims}) has grid {'the same object' if shares else getattr(cp, 'uxgrid', None)}")
+            return False
         return True
 
     for step, o in enumerate(case["ops"]):
@@ -282,6 +295,15 @@ def run_case(case, ctx):
                 f = lambda q: q.copy(deep=False)
             elif op == "copy_deep":
                 f = lambda q: q.copy(deep=True)
+            elif op == "deepcopy":
+                import copy as _copy
+
+                f = lambda q: _copy.deepcopy(q)
+            elif op in ("sum_grid", "mean_grid", "max_grid"):
+                # reduction over the grid dimension itself: the result carries no grid dimension but stays attached
+                if gd is None or not leads:
+                    continue
+                f = lambda q: getattr(q, op.split("_")[0])(gd)
             elif op == "isel_lead_and_grid":
                 if L is None or gd != "n_face":
                     continue
@@ -337,6 +359,37 @@ def run_case(case, ctx):
                         continue
                     dest = build.grid_from_mesh(meshgen.cubed_sphere(1 + a % 2))
                     res = d.remap.nearest_neighbor(dest, remap_to=["nodes", "face centers", "edge centers"][a % 3])
+                elif op == "ux.isel_two_dims":
+                    # the same index list along two different grid dimensions, on two arrays attached to one grid:
+                    # each selection is judged on its own (fresh-grid twin for the node selection)
+                    if gd is None or g0 is not g:
+                        continue
+                    other = "n_node" if gd != "n_node" else "n_face"
+                    m = min(d.sizes[gd], _n_of(g0, other))
+                    idx = sorted({a % m, (a * 3 + 1) % m})
+                    first = d.isel(**{gd: idx})
+                    e1 = ux.UxDataArray(np.arange(_n_of(g0, other), dtype=float), dims=[other], uxgrid=g0, name="e")
+                    second = e1.isel(**{other: idx})
+                    g2 = build.grid_from_mesh(mesh)
+                    e2 = ux.UxDataArray(np.arange(_n_of(g2, other), dtype=float), dims=[other], uxgrid=g2, name="e")
+                    ref = e2.isel(**{other: idx})
+                    ctx.ev("isel_history_independent")
+                    same_sel = (
+                        isinstance(second, ux.UxDataArray)
+                        and tuple(second.dims) == tuple(ref.dims)
+                        and second.shape == ref.shape
+                        and np.array_equal(np.asarray(second.values), np.asarray(ref.values))
+                        and second.uxgrid is not None
+                        and (second.uxgrid.n_face, second.uxgrid.n_node) == (ref.uxgrid.n_face, ref.uxgrid.n_node)
+                        and np.array_equal(np.asarray(second.uxgrid.face_node_connectivity.values), np.asarray(ref.uxgrid.face_node_connectivity.values))
+                    )
+                    if not same_sel:
+                        bad("isel_history_independent", site, "differs-from-fresh-grid", f"step {step}: after isel({gd}={idx}) on one array, isel({other}={idx}) on another array of the same grid gave shape {getattr(second, 'shape', None)} values {np.asarray(second.values).ravel()[:6]} on a grid of {second.uxgrid.n_face if second.uxgrid is not None else None} faces; on a fresh grid the same selection gives shape {ref.shape} values {np.asarray(ref.values).ravel()[:6]} on {ref.uxgrid.n_face} faces")
+                        return fails
+                    if other == "n_face" and not np.array_equal(np.asarray(second.values), np.asarray(idx, float)):
+                        bad("values_equal_xarray", site, "values", f"step {step}: isel(n_face={idx}) of arange returned {np.asarray(second.values)}")
+                        return fails
+                    res = first
                 elif op == "ux.get_dual":
                     if gd not in ("n_face", "n_node") or not refmodel.is_closed(mesh["faces"]) or g0 is not g:
                         continue
@@ -358,6 +411,8 @@ def run_case(case, ctx):
                     return fails
                 d = res
                 x = xr.DataArray(np.asarray(res.values), dims=res.dims, name=res.name, coords={k: v for k, v in res.coords.items() if k in res.dims})
+                if a % 2 == 0 and not probe_copy(d, op, step):
+                    return fails
                 if res.ndim == 0:
                     return fails
                 continue
@@ -377,7 +432,7 @@ def run_case(case, ctx):
             if res is None:
                 return fails
             ctx.ev("same_grid")
-            if op == "copy_deep":
+            if op in ("copy_deep", "deepcopy"):
                 if res.uxgrid is None or res.uxgrid is g0:
                     bad("same_grid", site, "deep-copy-shares-grid" if res.uxgrid is g0 else "grid=None", f"step {step}: deep copy's grid is {'the same object' if res.uxgrid is g0 else 'None'}")
                 elif not (res.uxgrid == g0):
@@ -405,6 +460,8 @@ def run_case(case, ctx):
             if not check_dims(res, site, step):
                 return fails
             d, x = res, ex
+            if a % 2 == 0 and op not in ("copy_deep", "deepcopy") and not probe_copy(d, op, step):
+                return fails
             if d.ndim == 0:
                 break
         finally:
